@@ -737,6 +737,19 @@ func runC09(cx *CheckCtx) {
 				epoch := paramTerm(tb, m, "epochNum")
 				until := tb.field(X, "Until")
 				cx.decide(a.factNE0(st, until), "refund-guard", "balance.NewEpoch>transfer/until-set", "Until ≠ 0 holds at the refund", "ordinary accounts (Until = 0) can be 'refunded' to their empty Parent: funds are burnt without a supply change", tc.call.Where(w))
+				// exhaustive: an iteration goes round the refund only for a key that is not an account,
+				// an ordinary account (Until = 0) or a lock that has not expired (epochNum < Until)
+				okE, whyE := everyElement(a, tc.call, func(es *CNF) bool {
+					for _, u := range append(a.eqClass(es, until), until) {
+						for _, e := range append(a.eqClass(es, epoch), epoch) {
+							if a.holdsAt(es, -a.litEqC(a.litLen(tc.from), 20), a.litEqC(u, 0), a.litLt(e, u)) {
+								return true
+							}
+						}
+					}
+					return false
+				})
+				cx.decide(okE, "refund-guard", "balance.NewEpoch>transfer/exhaustive", "every scanned lock with Until ≠ 0 and epochNum ≥ Until is refunded by this tick", "a tick does not release every expired lock (epochNum ≥ Until): "+whyE+"; the funds stay on the lock account", tc.call.Where(w))
 				cx.decide(a.factGE(st, epoch, until), "refund-guard", "balance.NewEpoch>transfer/expired", "epochNum ≥ Until holds at the refund", "a lock can be released at a tick with epoch < Until (or is kept at epoch = Until)", tc.call.Where(w))
 				// scanned key comes from a Find over family a
 				fromAlts := tb.Alts(tc.from)
